@@ -31,6 +31,8 @@ class CallMixin:
     def new_dict(self, dt, st):
         r = self.alloc(st)
         st.assume(self.eng.cls_of(r) == 0)
+        if 'ISDICT' in self.eng.prop.uf:
+            st.assume(self.call_spec_or_uf('ISDICT', [SV(T.Ref('$any'), r)], st).z)
         kh = self.eng.k_dhas(dt.k, dt.v)
         st.seth(kh, z3.Store(st.h(kh), r, z3.K(dt.k.sort(), z3.BoolVal(False))))
         return SV(T.Dict(dt.k, dt.v), r)
@@ -476,6 +478,8 @@ class CallMixin:
             if isinstance(v.t, T.Opt) and not v.t.reflike:
                 return z3.And(z3.Not(v.t.is_none(v.z)), z3.BoolVal(isinstance(v.t.t, prim[nm])))
             return z3.BoolVal(isinstance(v.t, prim[nm]))
+        if nm == 'dict' and isinstance(v.t, T.Ref) and 'ISDICT' in self.eng.prop.uf:
+            return z3.And(v.z != 0, self.call_spec_or_uf('ISDICT', [v], st).z)
         if nm in ('list', 'dict', 'tuple', 'slice'):
             m = {'list': T.List, 'dict': T.Dict, 'tuple': T.Tuple}
             if nm == 'slice':
@@ -525,7 +529,19 @@ class CallMixin:
     def bi_getattr(self, n, st):
         v = self.ev(n.args[0], st)
         if not isinstance(n.args[1], ast.Constant):
-            raise Unsupported('getattr with computed name')
+            am = self.attrmap_of(v)
+            if am is None:
+                raise Unsupported('getattr with computed name')
+            d = self.getattr(v, am, st, n)
+            key = self.ev(n.args[1], st)
+            has = self.rd(st, self.eng.k_dhas(d.t.k, d.t.v), d.z)
+            val = self.rd(st, self.eng.k_dval(d.t.k, d.t.v), d.z)
+            kz = coerce(key, d.t.k).z
+            got = self.loaded(SV(d.t.v, z3.Select(val, kz)), st)
+            if len(n.args) == 2:
+                self.raise_if(st, z3.Not(z3.Select(has, kz)), 'AttributeError', 'getattr')
+                return got
+            return ite(z3.Select(has, kz), got, self.ev(n.args[2], st))
         nm = n.args[1].value
         if isinstance(v.t, T._Str) and ('strattr_' + nm) in self.eng.prop.uf:
             # attribute of a str subclass instance (Text node): uninterpreted "attribute value or default"
@@ -538,6 +554,25 @@ class CallMixin:
         ft = self.eng.field_type(nm)
         val = SV(ft, z3.Select(st.h(self.eng.k_field(nm)), v.z))
         return ite(has, val, d)
+
+    def attrmap_of(self, v):
+        if isinstance(v.t, T.Ref) and v.t.cls != '$any':
+            for c in self.eng.class_chain(v.t.cls):
+                if self.eng.prop.classes[c].attrmap:
+                    return self.eng.prop.classes[c].attrmap
+        return None
+
+    def bi_setattr(self, n, st):
+        v = self.ev(n.args[0], st)
+        if isinstance(n.args[1], ast.Constant):
+            self.setattr(v, n.args[1].value, self.ev(n.args[2], st), st)
+            return none_sv()
+        am = self.attrmap_of(v)
+        if am is None:
+            raise Unsupported('setattr with computed name')
+        d = self.getattr(v, am, st, n)
+        self.dict_set(d, self.ev(n.args[1], st), self.ev(n.args[2], st), st)
+        return none_sv()
 
     def bi_set_of(self, n, st):
         """spec: set of the elements of a sequence."""
@@ -617,6 +652,12 @@ class CallMixin:
             return self.ev(n.args[0], st)
         finally:
             self.force_fuel = was
+
+    def bi_as_dict(self, n, st):
+        """spec: view an arbitrary object reference as a dictionary of the given type (meaningful when it is one)."""
+        v = self.ev(n.args[0], st)
+        t = self.eng.ptype(n.args[1].value)
+        return SV(t, v.z)
 
     def bi_fresh(self, n, st):
         """spec: the reference was allocated after function entry."""
